@@ -370,9 +370,13 @@ class LinearConstraints:
         return np.max(self.violation(x), initial=0.0)
 
     def violation(self, x):
-        if len(self.pcs):
-            return np.concatenate([pc.violation(x) for pc in self.pcs])
-        return np.array([])
+        x = np.asarray(x, dtype=float)
+        return np.concatenate(
+            (
+                np.maximum(self.a_ub @ x - self.b_ub, 0.0),
+                np.abs(self.a_eq @ x - self.b_eq),
+            )
+        )
 
 
 class NonlinearConstraints:
@@ -1200,7 +1204,7 @@ class Problem:
             b = self.bounds.violation(x)
             violation.append(b)
 
-        if len(self.linear.pcs):
+        if self.linear.m_ub + self.linear.m_eq > 0:
             lc = self.linear.violation(x)
             violation.append(lc)
         if len(self._nonlinear.pcs):
